@@ -12,7 +12,7 @@ from vlib import core, pptok, diffprog
 from checks import c01, c03
 
 TOK = ['a', '_b1', 'int', '1', '0x1f', '1.5', '.5', '0xE', '1e1', '08'[:1] + '7', '"s"', 'L', 'u8', 'u', "'c'", '+', '-', '*', '/', '%', '&', '|', '^', '<', '>', '=', '!', '~',
-       '.', '->', '++', '--', '<<', '>>', '<=', '>=', '==', '!=', '&&', '||', '+=', '-=', '<<=', '>>=', '...', '(', ')', '[', ']', '{', '}', ',', ';', ':', '?', 'L"w"', '0x1p3', '2u', 'e', 'x1', '1.', 'e5', '0x2.']
+       '.', '->', '++', '--', '<<', '>>', '<=', '>=', '==', '!=', '&&', '||', '+=', '-=', '<<=', '>>=', '...', '(', ')', '[', ']', '{', '}', ',', ';', ':', '?', 'L"w"', '0x1p3', '2u', 'e', 'x1', '1.', 'e5', '0x2.', '\u00e9', 'a\u00e9', '\u00e9t']
 FORMS = [('obj-obj', '#define A {0}\n#define B {1}\n{k} [ A B ]\n#undef A\n#undef B\n'),
          ('obj-adj', '#define A {0}\n#define B {1}\n{k} [ x A/**/B y ]\n#undef A\n#undef B\n'),
          ('tok-obj', '#define B {1}\n{k} [ {0} B ]\n#undef B\n'),
